@@ -23,10 +23,15 @@ class Prop:
                    'go where the process is listed; requests made for one process by the user (start_process / '
                    'stop_process / restart_process) are outside the sequencing statements (one mark per request, '
                    'consumed by the next request for that process)',
-                   'ordering is proved per step of the agenda machine for every state (SEQ-shape: extremal group, only '
-                   'when nothing is current) and for every run for the emission facts; the history-level statements '
-                   'application_order / job_bound are refuted (known findings), start_request_order at history level is '
-                   'checked by the Coq spec evaluator on every generated trace but not proved']
+                   'ordering theorems: per step for every state (SEQ-shape: extremal group / extremal application sequence, '
+                   'only when nothing is current), per run for the emission facts, and along whole histories from the '
+                   'initial state of any configuration under the NAMED boolean hypotheses checked on every configuration '
+                   'of the run (guard_all): H_no_reentrant_next (a job pops no group while one of its groups is still '
+                   'processed; never violated on generated histories), H_no_add_commands (start_process / stop_process '
+                   'only for an application without job, i.e. no command added to an existing plan; ~11% of generated '
+                   'histories leave it) and H_no_reentrant_delete (a job leaves current_jobs only with nothing planned and '
+                   'no group in progress; ~2% leave it: the class of the known finding); without the last one '
+                   'application_order / job_bound are refuted (known findings)']
     TRUSTED = ['modelled (not verified): commander.py Starter/Stopper/ApplicationJobs/ProcessCommand, the slice of '
                'Context.on_process_state_event / invalidate_failed, ProcessStatus synthesis (ProcStatus.v), '
                'ApplicationStatus.update (required-based); extra_args, load requests, distribution rules other than '
